@@ -580,6 +580,8 @@ def check_eos_constant(ctx):
 def check(ctx):
     repo = ctx.repo
     ci = repo.cls('Data')
+    from ..model import check_strategies_read_the_name_at_call_time
+    check_strategies_read_the_name_at_call_time(ctx, 'C06-name-at-call-time')
     check_eos_constant(ctx)
     sel = check_selection(ctx)
     done = set()
@@ -620,4 +622,5 @@ def check(ctx):
     # every operator to its operands in the declared order (C09 d)
     from .c09 import check_exec
     check_exec(ctx)
+
     ctx.trust(*ASSUMPTIONS)
